@@ -54,17 +54,24 @@ from props import C02 as _c02
 
 
 def uniq_jobs(tier):
-    return [{"id": f"O4.unique-write.fields{n}", "func": "VerifH_C07_UniqueWrite", "conf": {"fields": n, "dag": "", "orders": "all", "shortid": 0},
-             "_obligation": "O4", "_covers": ["written"], "unwind": 60} for n in (1, 2)]
+    js = [{"id": f"O4.unique-write.fields{n}", "func": "VerifH_C07_UniqueWrite", "conf": {"fields": n, "dag": "", "orders": "all", "shortid": 0},
+           "_obligation": "O4", "_covers": ["written"], "unwind": 60} for n in (1, 2)]
+    for unique in (0, 1):
+        for fields in (1, 2):
+            ops = (4 if fields == 1 else 3) if tier == "quick" else (5 if fields == 1 else 4)
+            js.append({"id": f"O5.maintenance.unique{unique}.fields{fields}.ops{ops}", "func": "VerifH_C07_Maintenance",
+                       "conf": {"unique": unique, "fields": fields, "ops": ops, "dag": "", "orders": "all", "shortid": 0},
+                       "_obligation": "O5", "_covers": ["maintained"], "unwind": 80})
+    return js
 
 
 PROPERTY = {
     "id": "C07",
     "suites": [
-        dict(_c02.SUITE, name="uniquewrite", jobs=uniq_jobs, files=["zz_verif_env.go", "zz_verif_merge.go", "zz_verif_c07uniq.go"]),{"name": "indexfetcher", "pkg": "internal/db/fetcher", "files": ["zz_verif_c03.go", "zz_verif_c07.go"],
+        dict(_c02.SUITE, name="uniquewrite", jobs=uniq_jobs, files=["zz_verif_env.go", "zz_verif_merge.go", "zz_verif_c07uniq.go", "zz_verif_c07maint.go"]),{"name": "indexfetcher", "pkg": "internal/db/fetcher", "files": ["zz_verif_c03.go", "zz_verif_c07.go"],
                 "common": ["intrinsics", "kvmodel", "dagenv"], "jobs": jobs, "unwind": 40, "witnesses": {"quick": 6, "thorough": 16},
                 "overrides": {"github.com/sourcenetwork/defradb/client.CborNil": "bytes:f6"}}],
-    "bounds": {"documents": 2, "kinds": "int in [-128,127] (key encoding at full width is C17), float64 (thorough), string <= 2 ASCII bytes, bool (thorough); every value may be null",
+    "bounds": {"index maintenance (O5)": "2 documents, 1-2 indexed nullable int fields with values null or 0..3, unique or not, directions symbolic, histories of 3-4 (thorough 4-5) Save/Update/Delete calls", "documents": 2, "kinds": "int in [-128,127] (key encoding at full width is C17), float64 (thorough), string <= 2 ASCII bytes, bool (thorough); every value may be null",
                "index": "single field or 2-field composite, asc/desc per field symbolic, unique or not", "filter": "one operator per indexed field from _eq,_ne,_gt,_ge,_lt,_le,_in(2),_nin(2); constants symbolic or null"},
     "assumptions": ["index entries have the shape written by collectionBaseIndex.getDocumentsIndexKey / makeUniqueKeyValueRecord (re-stated in the read harness with the real key encoder; for unique indexes the shape is pinned against the real write kernel by O4)",
                     "the store follows the corekv iterator contract (kvmodel)", "a unique index holds no two live documents with the same non-null tuple",
